@@ -542,7 +542,9 @@ impl CompressedEmbedding {
             let mut positions = Vec::with_capacity(nnz);
             let mut values = Vec::with_capacity(nnz);
             for (i, &v) in vector.iter().enumerate() {
-                if v.abs() > 1e-6 {
+                // Keep everything that is not exactly +0.0 (tiny values, -0.0 and NaN
+                // included) so that to_dense() gives back the same bits
+                if v.to_bits() != 0 {
                     if let Ok(pos) = u32::try_from(i) {
                         positions.push(pos);
                         values.push(v);
